@@ -56,8 +56,9 @@ type Task struct {
 	site  string
 	prio  int
 	// Label is free for worlds: what library call the task is inside (for stuck reports).
-	Label string
+	Label      string
 	awaitStuck bool
+	cond       func() bool
 }
 
 func (t *Task) String() string { return fmt.Sprintf("T%d(%s)", t.ID, t.Name) }
@@ -113,6 +114,7 @@ type Sim struct {
 	onStuck  func()
 	timerSeq int
 	lastSite string
+	jumps    int
 }
 
 var cur *Sim
@@ -162,7 +164,7 @@ func Run(tape *Tape, cfg Config, main func(), onStuck func()) *Outcome {
 	s.spawn("main", main)
 	s.loop()
 	s.teardown()
-	s.out.SimTime = time.Since(s.start)
+	s.out.SimTime = time.Since(s.start) - time.Duration(s.jumps)*s.cfg.Horizon
 	s.out.Tasks = len(s.tasks)
 	return &s.out
 }
@@ -262,9 +264,22 @@ func (s *Sim) loop() {
 			}
 			s.current = nil
 		}
+		snapshot := append([]*Task(nil), s.tasks...)
+		s.mu.Unlock()
+		// WaitUntil conditions are evaluated here: every task is parked, so harness state is stable.
+		for _, t := range snapshot {
+			if t.state == stParked && t.cond != nil && t.cond() {
+				t.cond = nil
+				s.mu.Lock()
+				t.state = stReady
+				s.mu.Unlock()
+			}
+		}
+		s.mu.Lock()
 		var ready []*Task
 		alive := 0
 		for _, t := range s.tasks {
+
 			if t.state != stDone {
 				alive++
 			}
@@ -287,6 +302,7 @@ func (s *Sim) loop() {
 				continue
 			case <-horizon.C:
 			}
+			s.jumps++
 			// Fully stuck: wake WaitStuck waiters if any.
 			woke := false
 			s.mu.Lock()
@@ -549,6 +565,32 @@ func WaitStuck(site string) {
 	t.awaitStuck = true
 	s.mu.Unlock()
 	t.park()
+}
+
+// WaitUntil parks the calling task until cond (evaluated by the scheduler at every scheduling
+// point, while every task is parked) becomes true. Unlike a spin loop it cannot starve other tasks
+// under priority scheduling.
+func WaitUntil(site string, cond func() bool) {
+	s := must()
+	t := s.self()
+	if cond() {
+		return
+	}
+	t.site = site
+	s.mu.Lock()
+	t.state = stParked
+	t.cond = cond
+	s.mu.Unlock()
+	t.park()
+}
+
+// BlockedInOp reports whether the task is durably blocked inside a real operation (channel
+// operation, select, sleep).
+func (t *Task) BlockedInOp() bool {
+	s := must()
+	s.mu.Lock()
+	defer s.mu.Unlock()
+	return t.state == stBlocked
 }
 
 // Sleep lets simulated time pass for the calling task.
